@@ -331,12 +331,24 @@ class LocationTable:
             # An entry whose PV timestamp is ahead of the local clock (sender clock slightly
             # fast, or sub-second resolution) has a wrapped difference close to 2^32 and is
             # not expired; a placeholder with a Location Service in progress has no PV yet.
-            self.loc_t = {
-                gn: entry for gn, entry in self.loc_t.items()
-                if entry.ls_pending
-                or entry.position_vector.tst > current_time
-                or (current_time - entry.position_vector.tst) <= lifetime_ms
-            }
+            kept = {}
+            for gn, entry in self.loc_t.items():
+                if (
+                    entry.position_vector.tst > current_time
+                    or (current_time - entry.position_vector.tst) <= lifetime_ms
+                ):
+                    kept[gn] = entry
+                elif entry.ls_pending:
+                    # The lookup keeps its placeholder, but a position vector (with neighbour status and
+                    # duplicate packet list) that has outlived its lifetime does not survive through it.
+                    if entry._pv_received:  # pylint: disable=protected-access
+                        entry._pv_received = False  # pylint: disable=protected-access
+                        entry.is_neighbour = False
+                        with entry.dpl_lock:
+                            entry.dpl_set.clear()
+                            entry.dpl_deque.clear()
+                    kept[gn] = entry
+            self.loc_t = kept
 
     def new_shb_packet(
         self, position_vector: LongPositionVector, packet: bytes
